@@ -627,6 +627,9 @@ var badFiles = []string{
 	"[1, 2]", // an array of non-objects
 	"[{\"_id\":\"00000000-0000-4000-8000-0000000000aa\",\"x\":1}, null]", // a document and a null
 	"[null]",
+	"[{\"_id\":\"00000000-0000-4000-8000-0000000000aa\",\"x\":1}] trailing",                                        // text after the array
+	"[{\"_id\":\"00000000-0000-4000-8000-0000000000aa\",\"x\":1}]\n[{\"_id\":\"00000000-0000-4000-8000-0000000000ab\"}]\n", // two arrays
+	"[]]",
 	"[{\"_id\":\"00000000-0000-4000-8000-0000000000aa\",\"x\":1}, {\"_id\":\"00000000-0000-4000-8000-0000000000ab\"}", // two documents, no closing bracket
 }
 
